@@ -588,7 +588,7 @@ func (tc *typechecker) rebalancedRightSide(node ast.Node) []ast.Expression {
 
 	rhExpr := nodeRhs[0]
 
-	if call, ok := rhExpr.(*ast.Call); ok {
+	if call, ok := rhExpr.(*ast.Call); ok && len(nodeRhs) == 1 {
 		tis := tc.checkCallExpression(call)
 		if len(nodeLhs) != len(tis) {
 			ti := tc.compilation.typeInfos[call.Func]
